@@ -3,6 +3,7 @@ EXTENDS VringConc, Json
 CONSTANT Scenario
 ScriptDef == CASE Scenario = "disable_enable" -> <<"disable", "enable">>
                [] Scenario = "stop_start" -> <<"stop", "start">>
+               [] Scenario = "stop_restart" -> <<"stop", "restart">>
                [] Scenario = "reset_enable" -> <<"reset", "features", "enable">>
                [] Scenario = "disable_only" -> <<"disable">>
                [] Scenario = "stop_only" -> <<"stop">>
